@@ -292,6 +292,13 @@ func VerifC16Manager() {
 		}
 		verifReach("all-cancelled")
 	}
+	if closed || result != nil {
+		// the request has ended while the manager keeps running: whatever was still downloading
+		// this block is cancelled and leaves the list without waiting for any timeout - a
+		// registry that lost track of an active download (or kept a finished one) shows here
+		verifSettle()
+		verifAssert(len(bm.downloaders) == 0, "downloader-list-not-empty-after-the-request-ended")
+	}
 	// a second terminal signal must never come
 	extra := false
 	if !closed {
